@@ -245,6 +245,9 @@ func clauseLabel(kind string, k int, cl clause) string {
 func (e *Enc) applyContract(fr *Frame, x *ssa.Call, callee *ssa.Function, con *FuncContract, args []Val, st *State, name string) {
 	tb := e.tb
 	con.used = true
+	if con.trusted {
+		e.modelled("TRUSTED contract (assumed, body not verified): " + name)
+	}
 	pre := st.clone()
 	env := e.envForCall(callee, args, nil, st, &pre)
 	for k, cl := range con.requires {
@@ -625,6 +628,9 @@ func (e *Enc) invoke(fr *Frame, x *ssa.Call, st *State, recv Val, args []Val) {
 	}
 	if ic := e.L.ifaceContract(c.Value.Type(), c.Method.Name()); ic != nil {
 		ic.used = true
+		if ic.opts["no-impl-check"] == "true" {
+			e.modelled("ASSUMED interface contract (implementations not checked): " + ic.key)
+		}
 		if ic.opts["evaluates"] == "true" {
 			e.lazyViolation(fr, x, st, "call of "+ic.key+", which evaluates list elements")
 		}
@@ -1022,6 +1028,26 @@ func (e *Enc) closureAtCreation(fr *Frame, x *ssa.MakeClosure, c *Term, st *Stat
 		}
 	}
 	if spec == nil {
+		// a literal without closure-spec in a unit that verifies its literals: nothing is known about the function
+		// value, but the statelessness obligation is generated all the same (the claim is about every literal)
+		if fn.Syntax() != nil {
+			bad := capturedWrites(fn, 0)
+			cond := e.tb.True()
+			txt := "no captured variable is assigned (or has its address taken) inside the literal"
+			if len(bad) > 0 {
+				cond = e.tb.False()
+				txt += "; offending: " + strings.Join(bad, ", ")
+			}
+			name := e.L.nodeText(fn.Syntax())
+			if i := strings.Index(name, "{"); i >= 0 {
+				name = strings.TrimSpace(name[i+1:])
+			}
+			if len(name) > 40 {
+				name = name[:40]
+			}
+			q := e.oblige("closure", "literal:"+name+".captures-read-only", st, cond, x.Pos(), e.inputVals()...)
+			q.Text = txt
+		}
 		return
 	}
 	tb := e.tb
@@ -1088,7 +1114,10 @@ func (e *Enc) closureAtCreation(fr *Frame, x *ssa.MakeClosure, c *Term, st *Stat
 	// assumes ("captured variables keep the value they had when the literal was created") and what makes compiled code
 	// stateless across evaluations. Checked on the SSA of the literal itself, also for trusted literals.
 	{
-		bad := capturedWrites(fn, 0)
+		var bad []string
+		if !(fn.Synthetic != "" && strings.HasSuffix(fn.Name(), "$bound")) { // a bound method captures its receiver by value
+			bad = capturedWrites(fn, 0)
+		}
 		cond := tb.True()
 		txt := "no captured variable is assigned (or has its address taken) inside the literal"
 		if len(bad) > 0 {
